@@ -1664,11 +1664,11 @@ func (x *Exec) scanWrites(info *types.Info, node ast.Node, ws *writeSet, seen ma
 			ws.all = true
 		case *ast.UnaryExpr:
 			if v.Op == token.AND {
-				// address taken: whoever receives it may write
-				if id := rootIdent(v.X); id != nil {
-					if o := info.Uses[id]; o != nil {
-						ws.vars[o] = true
-					}
+				// address taken: whoever receives it may write the addressed location (for a
+				// field reached through a pointer that is the pointee's field, not the
+				// pointer variable); the address of a composite literal is a fresh object
+				if _, isLit := ast.Unparen(v.X).(*ast.CompositeLit); !isLit {
+					markL(v.X)
 				}
 			}
 		case *ast.CallExpr:
@@ -2045,7 +2045,21 @@ func (x *Exec) havocStmt(s *State, fr *Frame, st ast.Stmt) *State {
 		}
 		return true
 	})
-	x.havocAllMem(s, "unsupported statement")
+	if ws.all {
+		x.havocAllMem(s, "unsupported statement")
+	} else {
+		// the statement writes at most the memories of its syntactic write set
+		for m := range ws.mems {
+			if srt, ok := x.memSorts[m]; ok {
+				s.mem[m] = x.ctx.Fresh("mem$"+m, outerSort(srt))
+				x.noteWriteAll(s, "unsupported statement may write "+m)
+			} else {
+				x.noteWriteAll(s, "unsupported statement may write "+m)
+				delete(s.mem, m)
+				x.pendingHavoc(s, m)
+			}
+		}
+	}
 	// control flow out of the statement (return/break) is lost: reject if it has any
 	hasJump := false
 	ast.Inspect(st, func(n ast.Node) bool {
